@@ -9,3 +9,6 @@ cp "${REPO:-/repo}/Cargo.lock" harness/Cargo.lock
 (cd harness && CARGO_NET_OFFLINE=true cargo build --release --offline)
 # the build with /repo's verification hooks compiled in (C02), in its own target directory
 (cd harness && CARGO_NET_OFFLINE=true RUSTFLAGS="--cfg grmtools_verif" CARGO_TARGET_DIR=target/hook cargo build --release --offline)
+
+# the plain release build (cfgrammar without debug assertions) that C20 runs against
+(cd harness && CARGO_NET_OFFLINE=true CARGO_TARGET_DIR=target/plain cargo build --release --offline --config profile.release.package.cfgrammar.debug-assertions=false)
